@@ -68,9 +68,10 @@ theorem ops_ok (fname : Bytes) (rs : List SRec) (trail : List TLine) (h : DbOk f
     rw [hlen] at this
     omega
 
-/-- `create_ssi_index` succeeds iff names are pairwise distinct and accessions are pairwise distinct -/
+/-- `create_ssi_index` succeeds iff all names and accessions together are pairwise distinct (since e2f2f44 `esl_newssi_Write` also
+    reports an accession that equals a name) -/
 theorem createIndex_isSome_iff (fname : Bytes) (rs : List SRec) (trail : List TLine) (h : DbOk fname rs trail) :
-    (createIndex fname (dbBytes rs trail)).isSome = true ↔ (rs.map SRec.name).Nodup ∧ (rs.filterMap SRec.acc).Nodup := by
+    (createIndex fname (dbBytes rs trail)).isSome = true ↔ (rs.map SRec.name ++ rs.filterMap SRec.acc).Nodup := by
   classical
   obtain ⟨hv, hf, hn, hp, hs⟩ := ops_ok fname rs trail h
   simp only at hv hf hn hp hs
@@ -80,9 +81,8 @@ theorem createIndex_isSome_iff (fname : Bytes) (rs : List SRec) (trail : List TL
   rw [scanDb_records rs trail h.wf h.trailOk]
   simp only [heq]
   have hD : (logical (indexOps fname fmtStockholm ((entries 0 rs).map (·.1)))).Distinct ↔
-      (rs.map SRec.name).Nodup ∧ (rs.filterMap SRec.acc).Nodup := by
-    unfold NewSsi.Distinct
-    rw [hp, hs]
+      (rs.map SRec.name ++ rs.filterMap SRec.acc).Nodup := by
+    rw [NewSsi.distinct_iff_nodup, hp, hs]
     have e1 : (((entries 0 rs).map (·.1)).map toPKey).map (·.key) = rs.map SRec.name := by
       rw [← entries_names rs 0]; simp [toPKey]
     have e2 : (((entries 0 rs).map (·.1)).filterMap toSKey).map (·.key) = rs.filterMap SRec.acc := by
@@ -108,8 +108,7 @@ theorem createIndex_isSome_iff (fname : Bytes) (rs : List SRec) (trail : List TL
 /-- THEOREM (5): for every database of well-formed records and the index the tool built for it, the indexed fetch of `key` returns
     exactly the text of the alignment a sequential scan finds under that name or accession, and `not found` when there is none -/
 theorem onefetch_eq_seqFetch (fname : Bytes) (rs : List SRec) (trail : List TLine) (h : DbOk fname rs trail) (ssi : Bytes)
-    (hc : createIndex fname (dbBytes rs trail) = some ssi)
-    (hcross : ∀ r ∈ rs, ∀ r' ∈ rs, r.acc ≠ some r'.name) (key : Bytes) :
+    (hc : createIndex fname (dbBytes rs trail) = some ssi) (key : Bytes) :
     onefetch (dbBytes rs trail) ssi key = match seqFetch rs key with | some t => .ok t | none => .notfound := by
   obtain ⟨hv, hf, hn, hp, hs⟩ := ops_ok fname rs trail h
   simp only at hv hf hn hp hs
@@ -144,18 +143,7 @@ theorem onefetch_eq_seqFetch (fname : Bytes) (rs : List SRec) (trail : List TLin
         have hamem : (⟨key, e.1.name⟩ : SKey) ∈ (logical (indexOps fname fmtStockholm ((entries 0 rs).map (·.1)))).skeys := by
           rw [hs, List.mem_filterMap]
           exact ⟨e.1, List.mem_map_of_mem hmem, by simp [toSKey, hacc]⟩
-        have hnp : ∀ k' ∈ (logical (indexOps fname fmtStockholm ((entries 0 rs).map (·.1)))).pkeys, k'.key ≠ key := by
-          intro k' hk'
-          rw [hp] at hk'
-          simp only [List.mem_map] at hk'
-          obtain ⟨r', ⟨e', he', rfl⟩, rfl⟩ := hk'
-          obtain ⟨s, hs', hsn, hsa⟩ := entries_mem rs 0 e hmem
-          obtain ⟨s', hs2, hsn', _⟩ := entries_mem rs 0 e' he'
-          intro hk
-          simp only [toPKey] at hk
-          apply hcross s hs' s' hs2
-          rw [← hsa, hacc, ← hsn', hk]
-        have := EaselModel.Props.C06.findName_alias_partial _ hwf (some []) ssi hw ⟨key, e.1.name⟩ hamem (toPKey e.1) hkmem rfl hnp
+        have := EaselModel.Props.C06.findName_alias _ hwf (some []) ssi hw ⟨key, e.1.name⟩ hamem (toPKey e.1) hkmem rfl
         simp only [toPKey] at this
         rw [this]; rfl
     simp only [Option.map_some, onefetch, hpos, hreg e hmem]
